@@ -31,7 +31,8 @@ def exhaustive(tier):
 
 def required(tier):
     return {"exact_pairs": 5000, "type_checks": 5000, "law_checks": 1000,
-            "prefix_products": 2000, "cache_entries_audited": 500, "gen_units": 200}
+            "prefix_products": 2000, "cache_entries_audited": 500, "gen_units": 200,
+            "primed_conversions": 1500}
 
 
 def shards(tier, seed):
@@ -50,6 +51,8 @@ def shards(tier, seed):
                     "n": 5000 if tier == "quick" else 60000})
     for i in range(2 if tier == "quick" else 8):
         out.append({"kind": "generated", "name": f"gen{i}", "n": 30 if tier == "quick" else 200})
+    for nit in ("fraction", "float", "decimal"):
+        out.append({"kind": "primed", "nit": nit, "name": f"primed-{nit}"})
     return out
 
 
@@ -216,6 +219,38 @@ def run_shard(spec, rec):
                 cmp(got2, 1 / want, ex, {"src": s, "dst": ps, "prefix": pc}, "prefix-factor")
                 if rng.random() < 0.02:
                     rec.sample({"spelling": ps, "prefix": pc, "unit": c, "factor": str(want)})
+    elif spec["kind"] == "primed":
+        # History: the WRITTEN reference of a derived unit (kilometer / hour for kph, kilogram * meter /
+        # second ** 2 for newton ...) is reduced first, which primes the memo layers with exactly that
+        # container; then the derived unit is converted at exponents other than +-1.
+        one = nit(1)
+        derived = [c for c in names if len(m.units[c]["ref"]) >= 2 and fac[c].v > 0 and fac[c].exact
+                   and all(F(e).denominator == 1 for e in m.units[c]["ref"].values())]
+        for c in derived:
+            ref = m.units[c]["ref"]
+            try:
+                cont = ureg.UnitsContainer({k: int(v) for k, v in ref.items()})
+                ureg.get_root_units(cont)
+                ureg.Quantity(one, cont).to_base_units()
+            except Exception:  # noqa: BLE001
+                rec.count("primed_reference_unreducible")
+                continue
+            mf, mr, _ = m.root(c)
+            for k in (2, -2, 3, -1, 1):
+                if nit is float and not (1e-100 < abs(float(mf.v)) ** abs(k) < 1e100):
+                    continue
+                rec.count("primed_conversions")
+                rec.case((nitname, "primed", c, k), nontrivial=True)
+                src = ureg.UnitsContainer({c: k})
+                dst = ureg.UnitsContainer({r: int(e) * k for r, e in mr.items()})
+                try:
+                    got = ureg.convert(one, src, dst)
+                except Exception as e:  # noqa: BLE001
+                    rec.violation("raised", {"src": repr(dict(src)), "dst": repr(dict(dst)), "err": repr(e)[:200]}, nit=nitname)
+                    continue
+                cmp(got, mf.v ** k, True, {"src": f"{c}**{k}", "dst": repr(dict(dst)), "primed_with": repr(dict(cont))},
+                    "factor-after-priming-the-memo")
+        rec.sample({"primed_example": "get_root_units(kilometer/hour) then convert kilometer_per_hour**2"})
     elif spec["kind"] == "compound":
         pos = [c for c in names if fac[c].v > 0]
         for i in range(spec["n"]):
